@@ -171,7 +171,7 @@ pub fn escape_table(cx: &mut Ctx, refd: &serde_json::Value, rule: &str) {
         Some(po) => {
             let t = sm::tsx(&po.block);
             let maxd = refd["octal"]["max_digits"].as_u64().unwrap();
-            let loop_ok = t.contains(&format!("whileoctet_content.len()<{}{{matchself.peek(){{Some('0'..='7')=>octet_content.push(self.next_char().unwrap()),_=>{{break;}},}}}}", maxd));
+            let loop_ok = t.contains(&format!("whileoctet_content.len()<{}{{matchself.peek(){{Some('0'..='7')=>octet_content.push(self.next_char().unwrap()),_=>break,}}}}", maxd));
             let conv_ok = t.ends_with("letvalue=u32::from_str_radix(&octet_content,8).unwrap();char::from_u32(value).unwrap()}");
             if loop_ok {
                 cx.ok(rule, "parse_octet reads at most 3 octal digits, each peeked as '0'..='7' before it is consumed");
